@@ -295,6 +295,34 @@ func c06Run(c *core.C) {
 			}
 			c06Compare(c, fmt.Sprintf("seq/parens-%d", n), e2, nil)
 		}
+		// string operands whose symbol index no table defines (a token can carry them), against
+		// symbol tables holding 0, 1 and 2 entries: every operator that resolves the text returns
+		// a value or an error, it does not panic
+		for _, size := range []int{0, 1, 2} {
+			tab := &datalog.SymbolTable{}
+			for k := 0; k < size; k++ {
+				tab.Insert(fmt.Sprintf("entry%d", k))
+			}
+			for _, idx := range []uint64{1024, 1025, 1026, 5000, 1<<63 - 1, 1 << 63, ^uint64(0)} {
+				d := datalog.String(idx)
+				exprs := map[string]datalog.Expression{
+					"length":      {datalog.Value{ID: d}, datalog.UnaryOp{UnaryOpFunc: datalog.Length{}}},
+					"starts_with": {datalog.Value{ID: d}, datalog.Value{ID: d}, datalog.BinaryOp{BinaryOpFunc: datalog.Prefix{}}},
+					"ends_with":   {datalog.Value{ID: d}, datalog.Value{ID: datalog.String(0)}, datalog.BinaryOp{BinaryOpFunc: datalog.Suffix{}}},
+					"contains":    {datalog.Value{ID: datalog.String(1)}, datalog.Value{ID: d}, datalog.BinaryOp{BinaryOpFunc: datalog.Contains{}}},
+					"matches":     {datalog.Value{ID: d}, datalog.Value{ID: d}, datalog.BinaryOp{BinaryOpFunc: datalog.Regex{}}},
+					"concat":      {datalog.Value{ID: d}, datalog.Value{ID: d}, datalog.BinaryOp{BinaryOpFunc: datalog.Add{}}},
+					"equal":       {datalog.Value{ID: d}, datalog.Value{ID: d}, datalog.BinaryOp{BinaryOpFunc: datalog.Equal{}}},
+				}
+				for name, e := range exprs {
+					c.Eval(1)
+					if pi := lib.Try(func() { _, _ = e.Evaluate(map[datalog.Variable]*datalog.Term{}, tab.Clone()) }); pi != nil {
+						c.Violate("expr-panic/"+pi.Site+"/dangling-string/"+name, fmt.Sprintf("%s on a string with undefined symbol index %d, symbol table of %d entries: %s", name, idx, size, pi.Msg), map[string]any{"operator": name, "index": idx, "table_entries": size})
+					}
+				}
+			}
+		}
+		c.Count("dangling_string_evaluations", 3*7*7)
 		c.Sample(map[string]any{"kind": "unary table + malformed sequences + stack depths"})
 	case c.Idx == ast.NumBinary+1:
 		for _, op := range []int{ast.BAdd, ast.BSub, ast.BMul, ast.BDiv} {
